@@ -18,8 +18,8 @@ META = {
             "of the decoded Blocks, header flags = footer flags, Backward Size = real Index size, all CRC32s match, all padding is zero; "
             "the grammar is unambiguous (output and length are functions of the input); (2) a Block accepted with damaged Compressed Data "
             "and the original Check exhibits a Check collision; (3) CRC32 and CRC64 detect every single-bit error, hence every single-bit "
-            "flip in the Stream Header, in the Index (except its indicator byte) and in the Stream Footer makes the whole file rejected, and "
-            "in a Block Header (except its size byte), Block Padding or Check makes that Block rejected; (4) acceptance depends only on "
+            "flip in the Stream Header, in any Block Header (except its size byte), Block Padding or Check, in the Index (except its "
+            "indicator byte) and in the Stream Footer makes the whole file rejected (single Stream, no IGNORE_CHECK); (4) acceptance depends only on "
             "the consumed bytes, so no proper prefix of an accepted Stream is accepted (given the same locality of the payload decoder); "
             "(5) an accepted .lz member has the right CRC32, data size and member size. Tie: the real decoders (lzma_stream_decoder with and "
             "without CONCATENATED and the TELL_*/IGNORE_CHECK flags, lzma_stream_buffer_decode, lzma_stream_decoder_mt, lzma_auto_decoder, "
@@ -32,8 +32,8 @@ META = {
             "The index hash (SHA-256 of the size pairs in C) is modelled as comparing the lists (collision-freeness assumed, stated). "
             "Hypotheses of the locality/prefix theorems on the abstract payload decoder: PayloadLocal, PayloadBounded (shown satisfiable; for "
             "the real LZMA2 chain they are exercised by the correspondence, not proved). Not theorems: rejection of a flip in a Block Header "
-            "Size byte or the Index Indicator (would need a CRC32 coincidence to be excluded), whole-file lifting of the Block-level flip "
-            "theorems, completeness of the grammar. Multi-byte damage is covered only up to a Check collision. The threaded decoder is "
+            "Size byte or the Index Indicator (would need a CRC32 coincidence to be excluded), flips in later Streams / Stream Padding under "
+            "CONCATENATED, completeness of the grammar, whole-file form of the payload-damage/collision statement. Multi-byte damage is covered only up to a Check collision. The threaded decoder is "
             "covered by the direct oracle only. Known finding: .lz trailing-data rule (findings/C05-lz-trailing-data-rule.json).",
     "technique": "Lean 4 proof over an executable model + differential correspondence + exhaustive single-fault injection",
 }
@@ -394,14 +394,16 @@ def judge(f, desc, res):
 TASK_TIMES = []
 
 
-def run_task(exe, f, ops, nexp):
-    lines = ["base " + vlib.hexs(f["data"]), "orig " + vlib.hexs(f["plain"])] + ops
+def run_task(exe, f, ops, nexp, reuse=False):
+    """`reuse`: the C harness runs every lzma_stream case of this task on one persistent, re-initialised handle (no
+    lzma_end in between); the answers must be those of fresh handles, i.e. the model's."""
+    head = ["base " + vlib.hexs(f["data"]), "orig " + vlib.hexs(f["plain"])] + (["reuse 1"] if reuse else [])
     t0 = time.time()
-    rc, out, err = vlib.run_lines([exe], lines, timeout=3000)
+    rc, out, err = vlib.run_lines([exe], head + ops, timeout=3000)
     TASK_TIMES.append((time.time() - t0, os.path.basename(exe), f["name"][:50], nexp))
-    if rc != 0 or len(out) != nexp + 2:
+    if rc != 0 or len(out) != nexp + len(head):
         return None, rc, err
-    return out[2:], rc, err
+    return out[len(head):], rc, err
 
 
 def replay_dict(f, desc, res_c, res_m, what):
@@ -487,12 +489,25 @@ def run(ctx):
 
     # C side
     t0 = time.time()
-    res_c = vlib.par_map(lambda t: run_task(exe, files[t[0]], t[1], len(t[2])), tasks)
+    # handle reuse: a seeded half of the tasks runs on a persistent lzma_stream (re-init without lzma_end after a case
+    # that ended in success / error / mid-stream abandon); state that an init function sets only when it first
+    # allocates its coder shows up as a difference from the model, which knows nothing about handles
+    reuse = [ctx.rng.random() < 0.5 for _ in tasks]
+    ctx.count("tasks:reused-handle", sum(reuse))
+    ctx.count("tasks:fresh-handle", len(reuse) - sum(reuse))
+    res_c = vlib.par_map(lambda it: run_task(exe, files[it[1][0]], it[1][1], len(it[1][2]), reuse[it[0]]), list(enumerate(tasks)))
     ctx.log("C harness done in %.1fs" % (time.time() - t0))
-    for (out, rc, err), t in zip(res_c, tasks):
+    for ti0, ((out, rc, err), t) in enumerate(zip(res_c, tasks)):
         if out is None:
             # the harness died: find the op
             f = files[t[0]]
+            if reuse[ti0]:
+                o2, rc2, e2 = run_task(exe, f, t[1], len(t[2]), False)
+                if o2 is not None:
+                    ctx.violation("harness-abort-reused-handle", {"kind": "implementation aborted (sanitizer/assert/crash) only when the lzma_stream handle is reused without lzma_end",
+                                                                   "file": f["name"], "base_hex": f["data"].hex(), "orig_hex": f["plain"].hex(),
+                                                                   "ops": ["reuse 1"] + t[1], "stderr": err}, True)
+                    return "proof"
             cur_base = None
             for op in t[1]:
                 tt = op.split()
@@ -512,7 +527,7 @@ def run(ctx):
     if model_ok:
         t0 = time.time()
         mtasks = [(i, t) for i, t in enumerate(tasks) if t[2][0][0] in MODEL_APIS]
-        outs = vlib.par_map(lambda it: run_task(mexe, files[it[1][0]], it[1][1], len(it[1][2])), mtasks)
+        outs = vlib.par_map(lambda it: run_task(mexe, files[it[1][0]], it[1][1], len(it[1][2]), reuse[it[0]]), mtasks)
         res_m = {}
         for (i, t), (out, rc, err) in zip(mtasks, outs):
             if out is None:
@@ -647,6 +662,77 @@ def cli_stage(ctx, files):
                                                    "orig_hex": f["plain"].hex(), "stdout_hex": so.hex()}, True, key=key) is not None:
                         bad += 1
     ctx.cov["cli"] = {"runs": sum(len(o) for o in results), "failing": bad}
+    bad += cli_multifile(ctx, files, jobs)
+
+
+def cli_multifile(ctx, files, jobs):
+    """One `xz -dkfq` invocation over several damaged/undamaged files of mixed formats and outcomes must give, file by
+    file, what separate invocations give (per-file state such as allow_trailing_input must not leak to the next file)."""
+    import shutil, tempfile
+    rng = ctx.rng
+    xz = xz_bin("xz")
+    ext = {"xz": ".xz", "lzma": ".lzma", "lz": ".lz"}
+    pool = []
+    for (fi, dam, desc) in jobs:
+        pool.append((fi, dam, desc))
+        f = files[fi]
+        r = rng.random()
+        if r < 0.25:
+            pool.append((fi, f["data"], ("x", 8, "w", 0, None)))                       # undamaged
+        elif r < 0.5:
+            junk = bytes([rng.randrange(1, 256)]) + bytes(rng.getrandbits(8) for _ in range(rng.randrange(0, 9)))
+            pool.append((fi, f["data"] + junk, ("x", 8, "a", len(f["data"]), None)))    # trailing garbage
+    for f in files:
+        if f["fmt"] == "lzma" and not f.get("large"):
+            pool.append((files.index(f), f["data"], ("x", 8, "w", 0, None)))
+    rng.shuffle(pool)
+    batches = [pool[i:i + 5] for i in range(0, len(pool), 5)]
+    root = os.path.join(vlib.CACHE, "c05-cli")
+
+    def decode(items, tag):
+        d = tempfile.mkdtemp(prefix=tag, dir=root)
+        try:
+            names = []
+            for k, (fi, dam, desc) in enumerate(items):
+                nme = "f%d%s" % (k, ext[files[fi]["fmt"]])
+                with open(os.path.join(d, nme), "wb") as fh:
+                    fh.write(dam)
+                names.append(nme)
+            p = subprocess.run([xz, "-dkfq"] + names, cwd=d, stdout=subprocess.PIPE, stderr=subprocess.PIPE)
+            res = []
+            for k in range(len(items)):
+                o = os.path.join(d, "f%d" % k)
+                res.append(open(o, "rb").read() if os.path.exists(o) else None)
+            return p.returncode, res
+        finally:
+            shutil.rmtree(d, ignore_errors=True)
+
+    def one(batch):
+        rc_b, res_b = decode(batch, "b")
+        singles = [decode([it], "s") for it in batch]
+        return rc_b, res_b, singles
+    outs = vlib.par_map(one, batches)
+    bad = 0
+    n = 0
+    for batch, (rc_b, res_b, singles) in zip(batches, outs):
+        for k, (it, (rc_s, res_s)) in enumerate(zip(batch, singles)):
+            n += 1
+            fi, dam, desc = it
+            f = files[fi]
+            ctx.case(("cli-multi", f["name"], desc[2], desc[3], k), True)
+            ctx.count("cli-multi:%s:%s" % (f["fmt"], "decoded" if res_s[0] is not None else "rejected"))
+            if res_b[k] != res_s[0]:
+                bad += 1
+                if bad <= 3:
+                    ctx.violation("cli-multifile-differs", {
+                        "kind": "xz -dkfq over several files gives a different result for one of them than a separate invocation (per-file state leaks between files)",
+                        "position_in_batch": k, "batch": [{"format": files[a]["fmt"], "damage": [c[2], c[3]], "hex": b.hex()} for (a, b, c) in batch],
+                        "separate": None if res_s[0] is None else res_s[0].hex(), "in_batch": None if res_b[k] is None else res_b[k].hex()}, True)
+            expect_rc = 0 if all(r is not None for r in res_b) else 1
+            if k == 0 and rc_b not in (expect_rc, 2):
+                ctx.count("cli-multi:unexpected-exit-status-%d" % rc_b)
+    ctx.cov["cli_multifile"] = {"files": n, "batches": len(batches), "differences": bad}
+    return bad
 
 
 def replay(ctx, path):
